@@ -6,6 +6,7 @@ package main
 // the code. The generated file is only ever passed as an overlay.
 
 import (
+	"errors"
 	"fmt"
 	"go/ast"
 	"go/parser"
@@ -69,6 +70,7 @@ type Contract struct {
 	Properties []string
 	Trusted    bool
 	Inline     []string
+	StaleLoops []string
 	Uses       []string
 	Covers     []clause
 	Cases      []caseSpec
@@ -600,6 +602,7 @@ func freeLocals(pkg *packages.Package, expr string, scope *types.Scope, pos toke
 		return true
 	})
 	seen := map[string]bool{}
+	unresolved := ""
 	var names []string
 	var typs []types.Type
 	var walk func(n ast.Node) bool
@@ -623,6 +626,11 @@ func freeLocals(pkg *packages.Package, expr string, scope *types.Scope, pos toke
 				return true
 			}
 			_, obj := scope.LookupParent(v.Name, pos)
+			if obj == nil && unresolved == "" {
+				if _, isImport := pkg.Imports[v.Name]; !isImport && v.Name != "verifrt" && !strings.HasPrefix(v.Name, "old_") && v.Name != "_" {
+					unresolved = v.Name
+				}
+			}
 			if vr, ok := obj.(*types.Var); ok && vr.Parent() != pkg.Types.Scope() && vr.Parent() != types.Universe {
 				seen[v.Name] = true
 				names = append(names, v.Name)
@@ -632,8 +640,13 @@ func freeLocals(pkg *packages.Package, expr string, scope *types.Scope, pos toke
 		return true
 	}
 	ast.Inspect(e, walk)
+	if unresolved != "" {
+		return names, typs, fmt.Errorf("%w: %s", errUnresolved, unresolved)
+	}
 	return names, typs, nil
 }
+
+var errUnresolved = fmt.Errorf("unknown identifier")
 
 func generatePackage(pkg *packages.Package, cts []*Contract, imports []string) (string, error) {
 	g := &genCtx{pkg: pkg, imports: map[string]string{}, used: map[string]bool{}}
@@ -938,12 +951,31 @@ func genContract(g *genCtx, c *Contract, out *strings.Builder) error {
 				ls.paramsOf[fn] = names
 				return fn, nil
 			}
+			staleLoop := func(err error) bool {
+				if err == nil || !errors.Is(err, errUnresolved) {
+					return false
+				}
+				// a variable the clause names does not exist (any more): the clauses
+				// of this loop are stale; the rest of the contract is still checked
+				fmt.Fprintf(os.Stderr, "STALE-LOOP-CLAUSE contract %s loop %d: %v; clauses ignored\n", c.Name, n, err)
+				c.StaleLoops = append(c.StaleLoops, fmt.Sprintf("loop %d: %v", n, err))
+				delete(c.Loops, n)
+				return true
+			}
+			isStale := false
 			for k, inv := range ls.invs {
 				fn, err := gen("inv", k, inv.expr, "bool")
+				if staleLoop(err) {
+					isStale = true
+					break
+				}
 				if err != nil {
 					return err
 				}
 				ls.invFns = append(ls.invFns, fn)
+			}
+			if isStale {
+				continue
 			}
 			if ls.decr != "" {
 				fn, err := gen("dec", 0, ls.decr, "int")
